@@ -21,19 +21,37 @@ class QuietLog:
         raise SystemExit(exit_code)
 
 
+def _literal(text):
+    # Parsers treats the exact source "-" as "read standard input" even for
+    # literal data; a (torn) file holding just "-" must not reach that branch
+    return text + "\n" if text.strip() == "-" else text
+
+
 def strict_load(text):
     """(document, loaded?) using Parsers.get_yaml_data on literal text."""
+    from ruamel.yaml.reader import ReaderError
     yaml = Parsers.get_yaml_editor()
-    return Parsers.get_yaml_data(yaml, QuietLog(), text, literal=True)
+    try:
+        return Parsers.get_yaml_data(yaml, QuietLog(), _literal(text),
+                                     literal=True)
+    except (ReaderError, UnicodeError):
+        # control characters / undecodable bytes (torn writes): Parsers does
+        # not trap these; for every caller here that simply means "not a
+        # loadable document"
+        return None, False
 
 
 def strict_load_all(text):
     """([documents], loaded?) using Parsers.get_yaml_multidoc_data."""
+    from ruamel.yaml.reader import ReaderError
     yaml = Parsers.get_yaml_editor()
     docs = []
-    for doc, ok in Parsers.get_yaml_multidoc_data(yaml, QuietLog(), text,
-                                                  literal=True):
-        if not ok:
-            return docs, False
-        docs.append(doc)
+    try:
+        for doc, ok in Parsers.get_yaml_multidoc_data(
+                yaml, QuietLog(), _literal(text), literal=True):
+            if not ok:
+                return docs, False
+            docs.append(doc)
+    except (ReaderError, UnicodeError):
+        return docs, False
     return docs, True
